@@ -6,6 +6,7 @@ package parser
 import (
 	"errors"
 	"fmt"
+	"math"
 	"strconv"
 
 	"github.com/theory/sqljson/path/ast"
@@ -47,4 +48,15 @@ func newNumeric(lex pathLexer, text string) *ast.NumericNode {
 		return ast.NewNumeric("0")
 	}
 	return ast.NewNumeric(text)
+}
+
+// anyLevel returns the value of a .**{level} bound. Like every integer literal
+// it may be written in any base and with digit separators.
+func anyLevel(lex pathLexer, text string) int {
+	level, err := strconv.ParseInt(text, 0, 64)
+	if err != nil || level > math.MaxInt32 {
+		lex.Error(fmt.Sprintf("level %v of .** is out of range", text))
+		return 0
+	}
+	return int(level)
 }
